@@ -6,6 +6,7 @@ import (
 	"go/constant"
 	"go/token"
 	"go/types"
+	"regexp"
 	"sort"
 	"strings"
 
@@ -14,47 +15,82 @@ import (
 
 // ORD-STRICT (C07): sort.Sort and sort.Slice give a deterministic result only for a strict weak order. A comparator
 // touches its two elements only through comparisons of terms (the same field, or the same function of the element,
-// on both sides): its truth is a function of the finitely many orderings of those terms. The rule evaluates the
-// comparator's body on every assignment of ranks to three abstract elements a, b, c (three ranks per term) and
-// decides, exactly for the modelled fragment:
+// on both sides): its truth is a function of the finitely many orderings of those terms. The rule *evaluates* the
+// comparator — its body and the module helpers it calls (three-way compare methods, lexicographic combinators over a
+// variadic list, …), with a small interpreter over booleans, small integers, terms and lists of those — on every
+// assignment of ranks to three abstract elements a, b, c (three ranks per term) and decides, exactly for the
+// modelled fragment:
 //
 //	irreflexive   ¬less(a,a)
 //	asymmetric    ¬(less(a,b) ∧ less(b,a))
 //	transitive    less(a,b) ∧ less(b,c) → less(a,c)
 //	equivalence   a~b ∧ b~c → a~c, where x~y = ¬less(x,y) ∧ ¬less(y,x)
 //
-// A body that uses anything else (a call to another comparator, a comparison between different terms) is not
-// modelled: the rule then emits a note and no verdict. A term that is a function of another one (len(split(k[#]))
-// and k[#]) is equal whenever the other is.
+// and, for ORD-TOTAL, which raw terms (the element itself or one of its fields, compared unchanged) separate two
+// elements: whenever such a term differs, one of less(a,b), less(b,a) holds.
+//
+// A body that uses anything else (a comparison between different terms, an unbounded loop) is not modelled: the rule
+// then emits a note and no verdict. A term that is a function of another one (len(split(k[#])) and k[#]) is equal
+// whenever the other is.
 
-type ordTerm struct {
-	text string
+type ovKind int
+
+const (
+	ovUnknown ovKind = iota
+	ovBool
+	ovInt
+	ovTerm
+	ovList
+)
+
+type oval struct {
+	kind  ovKind
+	b     bool
+	n     int64
+	term  string // rendered text with '#' for the element index
+	side  int    // 1: element i, 2: element j
+	isStr bool   // the term is a string (raw comparison of strings)
+	elems []oval
+}
+
+type ordFrame struct {
+	fi   *core.FuncInfo
+	info *types.Info
+	env  map[types.Object]oval
 }
 
 type strictEval struct {
 	e      *ordEngine
-	fi     *core.FuncInfo
-	info   *types.Info
 	coll   types.Object
 	pi, pj types.Object
-	terms  []string       // sorted term texts
-	index  map[string]int // term -> index in ranks
-	// current binding: ranks[term][element] with elements a=0,b=1,c=2; bind[0]/bind[1] say which element plays i / j
-	ranks [][3]int
-	bind  [2]int
-	unk   string
+	terms  []string
+	index  map[string]int
+	ranks  [][3]int
+	bind   [2]int
+	unk    string
+	// discovery mode: terms are collected instead of compared
+	discover bool
+	seen     map[string]bool
+	strTerm  map[string]bool
+	depth    int
 }
 
-// render gives the term text of x with the index parameters replaced by '#', and the set of sides it mentions
-// (bit 0: i, bit 1: j).
-func (s *strictEval) render(x ast.Expr, depth int) (string, int) {
+func (s *strictEval) fail(why string) oval {
+	if s.unk == "" {
+		s.unk = why
+	}
+	return oval{}
+}
+
+// render gives the term text of x ('#' for the index parameters, bound terms substituted) and the sides it mentions.
+func (s *strictEval) render(fr *ordFrame, x ast.Expr, depth int) (string, int) {
 	x = core.Unparen(x)
 	if depth > 8 {
 		return exprStr(x), 0
 	}
 	switch v := x.(type) {
 	case *ast.Ident:
-		o := core.ObjOf(s.info, v)
+		o := core.ObjOf(fr.info, v)
 		switch {
 		case o != nil && o == s.pi:
 			return "#", 1
@@ -62,92 +98,67 @@ func (s *strictEval) render(x ast.Expr, depth int) (string, int) {
 			return "#", 2
 		}
 		if o != nil {
-			if defs := s.e.c.P.Locals(s.fi).Defs[o]; len(defs) == 1 && defs[0].Kind == core.DefAssign && defs[0].Expr != nil {
-				if _, isVar := o.(*types.Var); isVar && o != s.coll {
-					return s.render(defs[0].Expr, depth+1)
-				}
+			if val, has := fr.env[o]; has && val.kind == ovTerm {
+				return val.term, val.side
 			}
 		}
 		return v.Name, 0
 	case *ast.UnaryExpr:
 		if v.Op == token.AND {
-			return s.render(v.X, depth+1)
+			return s.render(fr, v.X, depth+1)
 		}
-		t, sd := s.render(v.X, depth+1)
+		t, sd := s.render(fr, v.X, depth+1)
 		return v.Op.String() + t, sd
 	case *ast.StarExpr:
-		return s.render(v.X, depth+1)
+		return s.render(fr, v.X, depth+1)
 	case *ast.SelectorExpr:
-		t, sd := s.render(v.X, depth+1)
+		t, sd := s.render(fr, v.X, depth+1)
 		return t + "." + v.Sel.Name, sd
 	case *ast.IndexExpr:
-		t, sd := s.render(v.X, depth+1)
-		u, sd2 := s.render(v.Index, depth+1)
+		t, sd := s.render(fr, v.X, depth+1)
+		u, sd2 := s.render(fr, v.Index, depth+1)
 		return t + "[" + u + "]", sd | sd2
 	case *ast.CallExpr:
-		t, sd := s.render(v.Fun, depth+1)
+		t, sd := s.render(fr, v.Fun, depth+1)
 		var as []string
 		for _, a := range v.Args {
-			u, sd2 := s.render(a, depth+1)
+			u, sd2 := s.render(fr, a, depth+1)
 			as = append(as, u)
 			sd |= sd2
 		}
 		return t + "(" + strings.Join(as, ", ") + ")", sd
 	case *ast.BinaryExpr:
-		t, sd := s.render(v.X, depth+1)
-		u, sd2 := s.render(v.Y, depth+1)
+		t, sd := s.render(fr, v.X, depth+1)
+		u, sd2 := s.render(fr, v.Y, depth+1)
 		return t + " " + v.Op.String() + " " + u, sd | sd2
+	case *ast.BasicLit:
+		return v.Value, 0
 	}
 	return exprStr(x), 0
 }
 
-// collect gathers the terms compared in the body.
-func (s *strictEval) collect(body ast.Node) {
-	seen := map[string]bool{}
-	add := func(x ast.Expr) {
-		t, sd := s.render(x, 0)
-		if (sd == 1 || sd == 2) && !seen[t] {
-			seen[t] = true
-			s.terms = append(s.terms, t)
-		}
-	}
-	ast.Inspect(body, func(n ast.Node) bool {
-		switch v := n.(type) {
-		case *ast.BinaryExpr:
-			switch v.Op {
-			case token.LSS, token.GTR, token.LEQ, token.GEQ, token.EQL, token.NEQ:
-				add(v.X)
-				add(v.Y)
-			}
-		case *ast.CallExpr:
-			if cal := s.e.c.P.CalleeAny(s.fi, v); cal != nil && cal.FullName() == "strings.Compare" && len(v.Args) == 2 {
-				add(v.Args[0])
-				add(v.Args[1])
-			}
-		}
-		return true
-	})
-	sort.Strings(s.terms)
-	s.index = map[string]int{}
-	for i, t := range s.terms {
-		s.index[t] = i
-	}
-}
-
-// cmp3 returns -1, 0, +1 for the comparison of two operands under the current binding, ok=false when not modelled.
-func (s *strictEval) cmp3(x, y ast.Expr) (int, bool) {
-	tx, sx := s.render(x, 0)
-	ty, sy := s.render(y, 0)
-	if (sx != 1 && sx != 2) || (sy != 1 && sy != 2) || tx != ty {
-		s.unk = "comparison between different terms (" + exprStr(x) + " vs " + exprStr(y) + ")"
+// cmpTerms compares two term values under the current binding: -1, 0, +1.
+func (s *strictEval) cmpTerms(a, b oval) (int, bool) {
+	if a.kind != ovTerm || b.kind != ovTerm || a.term != b.term {
+		s.fail(fmt.Sprintf("comparison between different terms (%s vs %s)", a.term, b.term))
 		return 0, false
 	}
-	ix, ok := s.index[tx]
+	if s.discover {
+		if !s.seen[a.term] {
+			s.seen[a.term] = true
+			s.terms = append(s.terms, a.term)
+		}
+		if a.isStr {
+			s.strTerm[a.term] = true
+		}
+		return 0, true
+	}
+	ix, ok := s.index[a.term]
 	if !ok {
-		s.unk = "term not collected: " + tx
+		s.fail("term not collected: " + a.term)
 		return 0, false
 	}
-	ex, ey := s.bind[sx-1], s.bind[sy-1]
+	ex, ey := s.bind[a.side-1], s.bind[b.side-1]
 	rx, ry := s.ranks[ix][ex], s.ranks[ix][ey]
 	switch {
 	case rx < ry:
@@ -158,7 +169,7 @@ func (s *strictEval) cmp3(x, y ast.Expr) (int, bool) {
 	return 0, true
 }
 
-func opHolds(op token.Token, c int) (bool, bool) {
+func cmpHolds(op token.Token, c int64) (bool, bool) {
 	switch op {
 	case token.LSS:
 		return c < 0, true
@@ -176,158 +187,252 @@ func opHolds(op token.Token, c int) (bool, bool) {
 	return false, false
 }
 
-// boolExpr evaluates a boolean expression; ok=false when it is not modelled.
-func (s *strictEval) boolExpr(x ast.Expr, env map[types.Object]bool) (bool, bool) {
+// eval evaluates an expression to a value.
+func (s *strictEval) eval(fr *ordFrame, x ast.Expr) oval {
 	x = core.Unparen(x)
-	if tv, isC := s.info.Types[x]; isC && tv.Value != nil && tv.Value.Kind() == constant.Bool {
-		return constant.BoolVal(tv.Value), true
+	if tv, isC := fr.info.Types[x]; isC && tv.Value != nil {
+		switch tv.Value.Kind() {
+		case constant.Bool:
+			return oval{kind: ovBool, b: constant.BoolVal(tv.Value)}
+		case constant.Int:
+			if n, exact := constant.Int64Val(tv.Value); exact {
+				return oval{kind: ovInt, n: n}
+			}
+		}
 	}
 	switch v := x.(type) {
 	case *ast.Ident:
-		if o := core.ObjOf(s.info, v); o != nil {
-			if b, has := env[o]; has {
-				return b, true
-			}
-			if defs := s.e.c.P.Locals(s.fi).Defs[o]; len(defs) == 1 && defs[0].Kind == core.DefAssign && defs[0].Expr != nil {
-				return s.boolExpr(defs[0].Expr, env)
+		if o := core.ObjOf(fr.info, v); o != nil {
+			if val, has := fr.env[o]; has {
+				return val
 			}
 		}
 	case *ast.UnaryExpr:
-		if v.Op == token.NOT {
-			b, ok := s.boolExpr(v.X, env)
-			return !b, ok
+		switch v.Op {
+		case token.NOT:
+			a := s.eval(fr, v.X)
+			if a.kind != ovBool {
+				return s.fail("negation of a non-boolean")
+			}
+			return oval{kind: ovBool, b: !a.b}
+		case token.SUB:
+			a := s.eval(fr, v.X)
+			if a.kind != ovInt {
+				return s.fail("negation of a non-integer")
+			}
+			return oval{kind: ovInt, n: -a.n}
 		}
 	case *ast.BinaryExpr:
 		switch v.Op {
-		case token.LAND:
-			a, ok := s.boolExpr(v.X, env)
-			if !ok {
-				return false, false
+		case token.LAND, token.LOR:
+			a := s.eval(fr, v.X)
+			if a.kind != ovBool {
+				return s.fail("operand of a boolean connective is not modelled: " + exprStr(v.X))
 			}
-			if !a {
-				return false, true
-			}
-			return s.boolExpr(v.Y, env)
-		case token.LOR:
-			a, ok := s.boolExpr(v.X, env)
-			if !ok {
-				return false, false
-			}
-			if a {
-				return true, true
-			}
-			return s.boolExpr(v.Y, env)
-		case token.LSS, token.GTR, token.LEQ, token.GEQ, token.EQL, token.NEQ:
-			// strings.Compare(A, B) op 0   /   0 op strings.Compare(A, B)
-			for _, sw := range []bool{false, true} {
-				l, r, op := v.X, v.Y, v.Op
-				if sw {
-					l, r = v.Y, v.X
-					op = flipOp(op)
+			if (v.Op == token.LAND) != a.b {
+				// short circuit — but in discovery mode the other operand is visited to collect its terms
+				if s.discover {
+					s.eval(fr, v.Y)
 				}
-				if cc, isCall := core.Unparen(l).(*ast.CallExpr); isCall && len(cc.Args) == 2 {
-					if cal := s.e.c.P.CalleeAny(s.fi, cc); cal != nil && cal.FullName() == "strings.Compare" {
-						tv, isC := s.info.Types[r]
-						if !isC || tv.Value == nil {
-							break
-						}
-						k, exact := constant.Int64Val(constant.ToInt(tv.Value))
-						if !exact {
-							break
-						}
-						c, ok := s.cmp3(cc.Args[0], cc.Args[1])
-						if !ok {
-							return false, false
-						}
-						switch op {
-						case token.LSS:
-							return int64(c) < k, true
-						case token.GTR:
-							return int64(c) > k, true
-						case token.LEQ:
-							return int64(c) <= k, true
-						case token.GEQ:
-							return int64(c) >= k, true
-						case token.EQL:
-							return int64(c) == k, true
-						case token.NEQ:
-							return int64(c) != k, true
-						}
+				return a
+			}
+			b := s.eval(fr, v.Y)
+			if b.kind != ovBool {
+				return s.fail("operand of a boolean connective is not modelled: " + exprStr(v.Y))
+			}
+			return b
+		case token.LSS, token.GTR, token.LEQ, token.GEQ, token.EQL, token.NEQ:
+			a, b := s.eval(fr, v.X), s.eval(fr, v.Y)
+			switch {
+			case a.kind == ovInt && b.kind == ovInt:
+				c := int64(0)
+				if a.n < b.n {
+					c = -1
+				} else if a.n > b.n {
+					c = 1
+				}
+				r, _ := cmpHolds(v.Op, c)
+				return oval{kind: ovBool, b: r}
+			case a.kind == ovBool && b.kind == ovBool && (v.Op == token.EQL || v.Op == token.NEQ):
+				return oval{kind: ovBool, b: (a.b == b.b) == (v.Op == token.EQL)}
+			case a.kind == ovTerm && b.kind == ovTerm:
+				c, ok := s.cmpTerms(a, b)
+				if !ok {
+					return oval{}
+				}
+				r, _ := cmpHolds(v.Op, int64(c))
+				return oval{kind: ovBool, b: r}
+			}
+			return s.fail("comparison not modelled: " + exprStr(v))
+		}
+	case *ast.CallExpr:
+		return s.call(fr, v)
+	}
+	// anything that mentions exactly one of the two elements is a term
+	if t, sd := s.render(fr, x, 0); sd == 1 || sd == 2 {
+		return oval{kind: ovTerm, term: t, side: sd, isStr: core.IsString(fr.info.TypeOf(x))}
+	}
+	return s.fail("expression not modelled: " + exprStr(x))
+}
+
+// call evaluates strings.Compare, len of a list, and module functions (inlined).
+func (s *strictEval) call(fr *ordFrame, call *ast.CallExpr) oval {
+	P := s.e.c.P
+	if isBuiltin(fr.info, call, "len") && len(call.Args) == 1 {
+		if a := s.eval(fr, call.Args[0]); a.kind == ovList {
+			return oval{kind: ovInt, n: int64(len(a.elems))}
+		}
+		// len(<term>) is itself a term
+		if t, sd := s.render(fr, call, 0); sd == 1 || sd == 2 {
+			s.unk = ""
+			return oval{kind: ovTerm, term: t, side: sd}
+		}
+		return s.fail("len of an unknown value")
+	}
+	callee := P.CalleeAny(fr.fi, call)
+	if callee != nil && callee.FullName() == "strings.Compare" && len(call.Args) == 2 {
+		a, b := s.eval(fr, call.Args[0]), s.eval(fr, call.Args[1])
+		if a.kind != ovTerm || b.kind != ovTerm {
+			return s.fail("strings.Compare on values that are not terms")
+		}
+		a.isStr, b.isStr = true, true
+		c, ok := s.cmpTerms(a, b)
+		if !ok {
+			return oval{}
+		}
+		return oval{kind: ovInt, n: int64(c)}
+	}
+	g := P.Funcs[P.StaticCallee(fr.fi, call)]
+	if g != nil && g.Decl != nil && g.Decl.Body != nil && s.depth < 4 {
+		sig := g.Obj.Type().(*types.Signature)
+		if sig.Results().Len() == 1 {
+			nf := &ordFrame{fi: g, info: s.e.c.info(g), env: map[types.Object]oval{}}
+			// receiver
+			if sig.Recv() != nil {
+				if sel, ok := core.Unparen(call.Fun).(*ast.SelectorExpr); ok && g.Decl.Recv != nil && len(g.Decl.Recv.List) == 1 && len(g.Decl.Recv.List[0].Names) == 1 {
+					nf.env[nf.info.Defs[g.Decl.Recv.List[0].Names[0]]] = s.eval(fr, sel.X)
+					s.unk = ""
+				}
+			}
+			// parameters (a variadic tail becomes a list)
+			var params []types.Object
+			if g.Decl.Type.Params != nil {
+				for _, f := range g.Decl.Type.Params.List {
+					for _, nm := range f.Names {
+						params = append(params, nf.info.Defs[nm])
 					}
 				}
 			}
-			c, ok := s.cmp3(v.X, v.Y)
-			if !ok {
-				return false, false
+			for i, po := range params {
+				if sig.Variadic() && i == len(params)-1 {
+					var list []oval
+					for ai := i; ai < len(call.Args); ai++ {
+						list = append(list, s.eval(fr, call.Args[ai]))
+					}
+					nf.env[po] = oval{kind: ovList, elems: list}
+					continue
+				}
+				if i < len(call.Args) {
+					nf.env[po] = s.eval(fr, call.Args[i])
+				}
 			}
-			return opHolds(v.Op, c)
+			if s.unk != "" {
+				return oval{}
+			}
+			s.depth++
+			v, returned, ok := s.run(nf, g.Decl.Body.List)
+			s.depth--
+			if ok && returned {
+				return v
+			}
+			if ok && s.discover {
+				// discovery visits every branch and takes none: a neutral value of the result type
+				switch rt := sig.Results().At(0).Type().Underlying().(type) {
+				case *types.Basic:
+					if rt.Info()&types.IsBoolean != 0 {
+						return oval{kind: ovBool}
+					}
+					if rt.Info()&types.IsInteger != 0 {
+						return oval{kind: ovInt}
+					}
+				}
+			}
+			if ok {
+				return s.fail("a path through " + g.Name() + " does not return")
+			}
+			return oval{}
 		}
 	}
-	if s.unk == "" {
-		s.unk = "expression not modelled: " + exprStr(x)
+	// a function of one element is a term
+	if t, sd := s.render(fr, call, 0); sd == 1 || sd == 2 {
+		return oval{kind: ovTerm, term: t, side: sd, isStr: core.IsString(fr.info.TypeOf(call))}
 	}
-	return false, false
+	return s.fail("call not modelled: " + exprStr(call))
 }
 
-func flipOp(op token.Token) token.Token {
-	switch op {
-	case token.LSS:
-		return token.GTR
-	case token.GTR:
-		return token.LSS
-	case token.LEQ:
-		return token.GEQ
-	case token.GEQ:
-		return token.LEQ
-	}
-	return op
-}
-
-// run evaluates a statement list; returns (value, returned, ok).
-func (s *strictEval) run(list []ast.Stmt, env map[types.Object]bool) (bool, bool, bool) {
+// run executes a statement list: (value, returned, ok).
+func (s *strictEval) run(fr *ordFrame, list []ast.Stmt) (oval, bool, bool) {
 	for _, st := range list {
 		switch v := st.(type) {
 		case *ast.ReturnStmt:
 			if len(v.Results) != 1 {
-				s.unk = "return without a single result"
-				return false, false, false
+				s.fail("return without a single result")
+				return oval{}, false, false
 			}
-			b, ok := s.boolExpr(v.Results[0], env)
-			return b, true, ok
+			val := s.eval(fr, v.Results[0])
+			return val, true, val.kind != ovUnknown
 		case *ast.IfStmt:
 			if v.Init != nil {
-				if _, r, ok := s.run([]ast.Stmt{v.Init}, env); !ok || r {
-					return false, false, false
+				if _, r, ok := s.run(fr, []ast.Stmt{v.Init}); !ok || r {
+					return oval{}, false, false
 				}
 			}
-			c, ok := s.boolExpr(v.Cond, env)
-			if !ok {
-				return false, false, false
+			c := s.eval(fr, v.Cond)
+			if c.kind != ovBool {
+				s.fail("condition not modelled: " + exprStr(v.Cond))
+				return oval{}, false, false
 			}
-			if c {
-				if b, r, ok := s.run(v.Body.List, env); !ok || r {
-					return b, r, ok
-				}
-			} else if v.Else != nil {
-				var els []ast.Stmt
+			branches := [][]ast.Stmt{}
+			if c.b || s.discover {
+				branches = append(branches, v.Body.List)
+			}
+			if (!c.b || s.discover) && v.Else != nil {
 				switch e := v.Else.(type) {
 				case *ast.BlockStmt:
-					els = e.List
+					branches = append(branches, e.List)
 				default:
-					els = []ast.Stmt{e}
+					branches = append(branches, []ast.Stmt{e})
 				}
-				if b, r, ok := s.run(els, env); !ok || r {
-					return b, r, ok
+			}
+			for bi, br := range branches {
+				val, r, ok := s.run(fr, br)
+				if !ok {
+					return oval{}, false, false
 				}
+				// in discovery mode every branch is visited and none returns for real
+				if r && !s.discover {
+					return val, true, true
+				}
+				_ = bi
 			}
 		case *ast.BlockStmt:
-			if b, r, ok := s.run(v.List, env); !ok || r {
-				return b, r, ok
+			if val, r, ok := s.run(fr, v.List); !ok || r {
+				return val, r, ok
 			}
 		case *ast.SwitchStmt:
-			if v.Tag != nil || v.Init != nil {
-				s.unk = "switch with a tag"
-				return false, false, false
+			if v.Init != nil {
+				if _, r, ok := s.run(fr, []ast.Stmt{v.Init}); !ok || r {
+					return oval{}, false, false
+				}
+			}
+			var tag *oval
+			if v.Tag != nil {
+				t := s.eval(fr, v.Tag)
+				if t.kind != ovInt && t.kind != ovBool {
+					s.fail("switch tag not modelled")
+					return oval{}, false, false
+				}
+				tag = &t
 			}
 			var dflt *ast.CaseClause
 			taken := false
@@ -339,83 +444,138 @@ func (s *strictEval) run(list []ast.Stmt, env map[types.Object]bool) (bool, bool
 				}
 				hit := false
 				for _, ce := range cc.List {
-					c, ok := s.boolExpr(ce, env)
-					if !ok {
-						return false, false, false
+					cv := s.eval(fr, ce)
+					switch {
+					case tag == nil && cv.kind == ovBool:
+						hit = hit || cv.b
+					case tag != nil && tag.kind == ovInt && cv.kind == ovInt:
+						hit = hit || tag.n == cv.n
+					case tag != nil && tag.kind == ovBool && cv.kind == ovBool:
+						hit = hit || tag.b == cv.b
+					default:
+						s.fail("case expression not modelled: " + exprStr(ce))
+						return oval{}, false, false
 					}
-					hit = hit || c
 				}
-				if hit {
-					taken = true
-					if b, r, ok := s.run(cc.Body, env); !ok || r {
-						return b, r, ok
+				if hit || s.discover {
+					val, r, ok := s.run(fr, cc.Body)
+					if !ok {
+						return oval{}, false, false
 					}
-					break
+					if r && !s.discover {
+						return val, true, true
+					}
+					if hit && !s.discover {
+						taken = true
+						break
+					}
 				}
 			}
-			if !taken && dflt != nil {
-				if b, r, ok := s.run(dflt.Body, env); !ok || r {
-					return b, r, ok
+			if (!taken || s.discover) && dflt != nil {
+				val, r, ok := s.run(fr, dflt.Body)
+				if !ok {
+					return oval{}, false, false
+				}
+				if r && !s.discover {
+					return val, true, true
 				}
 			}
 		case *ast.AssignStmt:
-			// bool locals are evaluated; other locals are resolved through their single definition when rendered
-			for i, l := range v.Lhs {
-				o := core.ObjOf(s.info, l)
-				if o == nil || !core.IsBool(o.Type()) {
-					continue
-				}
-				if len(v.Rhs) != len(v.Lhs) {
-					s.unk = "multi-value assignment to a bool"
-					return false, false, false
-				}
-				b, ok := s.boolExpr(v.Rhs[i], env)
-				if !ok {
-					return false, false, false
-				}
-				env[o] = b
+			if len(v.Lhs) != len(v.Rhs) {
+				s.fail("multi-valued assignment")
+				return oval{}, false, false
 			}
-		case *ast.DeclStmt, *ast.EmptyStmt:
-		case *ast.ExprStmt:
-			// logging and the like
+			vals := make([]oval, len(v.Rhs))
+			for i, r := range v.Rhs {
+				vals[i] = s.eval(fr, r)
+				if vals[i].kind == ovUnknown {
+					return oval{}, false, false
+				}
+			}
+			for i, l := range v.Lhs {
+				if o := core.ObjOf(fr.info, l); o != nil {
+					fr.env[o] = vals[i]
+				}
+			}
+		case *ast.RangeStmt:
+			lv := s.eval(fr, v.X)
+			if lv.kind != ovList {
+				s.fail("loop over something that is not a known list")
+				return oval{}, false, false
+			}
+			for idx, el := range lv.elems {
+				if v.Key != nil {
+					if o := core.ObjOf(fr.info, v.Key); o != nil {
+						fr.env[o] = oval{kind: ovInt, n: int64(idx)}
+					}
+				}
+				if v.Value != nil {
+					if o := core.ObjOf(fr.info, v.Value); o != nil {
+						fr.env[o] = el
+					}
+				}
+				val, r, ok := s.run(fr, v.Body.List)
+				if !ok {
+					return oval{}, false, false
+				}
+				if r && !s.discover {
+					return val, true, true
+				}
+			}
+		case *ast.DeclStmt, *ast.EmptyStmt, *ast.ExprStmt:
 		default:
-			s.unk = fmt.Sprintf("statement not modelled: %T", st)
-			return false, false, false
+			s.fail(fmt.Sprintf("statement not modelled: %T", st))
+			return oval{}, false, false
 		}
 	}
-	return false, false, true
+	return oval{}, false, true
 }
 
 // less evaluates the comparator with element x as i and element y as j.
-func (s *strictEval) less(body ast.Node, x, y int) (bool, bool) {
+func (s *strictEval) less(fi *core.FuncInfo, body ast.Node, x, y int) (bool, bool) {
 	s.bind = [2]int{x, y}
-	var list []ast.Stmt
-	switch b := body.(type) {
-	case *ast.BlockStmt:
-		list = b.List
-	default:
-		s.unk = "comparator body is not a block"
+	blk, isBlk := body.(*ast.BlockStmt)
+	if !isBlk {
+		s.fail("comparator body is not a block")
 		return false, false
 	}
-	v, returned, ok := s.run(list, map[types.Object]bool{})
+	fr := &ordFrame{fi: fi, info: s.e.c.info(fi), env: map[types.Object]oval{}}
+	v, returned, ok := s.run(fr, blk.List)
 	if !ok {
 		return false, false
 	}
-	if !returned {
-		s.unk = "a path through the comparator does not return"
+	if s.discover {
+		return false, true
+	}
+	if !returned || v.kind != ovBool {
+		s.fail("a path through the comparator does not return a boolean")
 		return false, false
 	}
-	return v, true
+	return v.b, true
 }
 
-// strictOrder decides the four laws for one comparator; it emits one obligation, or a note when not modelled.
-func (e *ordEngine) strictOrder(owner string, fi *core.FuncInfo, body ast.Node, coll, pi, pj types.Object, pos token.Pos) {
+var rawTermRE = regexp.MustCompile(`^[A-Za-z_][A-Za-z0-9_]*\[#\](\.([A-Za-z_][A-Za-z0-9_]*))?$`)
+
+// strictOrder decides the four laws for one comparator; it emits one obligation, or a note when not modelled. It
+// returns the fields (""= the element itself) whose raw string comparison separates two elements.
+func (e *ordEngine) strictOrder(owner string, fi *core.FuncInfo, body ast.Node, coll, pi, pj types.Object, pos token.Pos) (map[string]bool, bool) {
 	c := e.c
-	s := &strictEval{e: e, fi: fi, info: c.info(fi), coll: coll, pi: pi, pj: pj}
-	s.collect(body)
+	s := &strictEval{e: e, coll: coll, pi: pi, pj: pj, seen: map[string]bool{}, strTerm: map[string]bool{}}
+	// discovery pass: visit every branch and collect the compared terms
+	s.discover = true
+	if _, ok := s.less(fi, body, 0, 1); !ok {
+		c.S.Note("%s", fmt.Sprintf("ORD-STRICT %s: not modelled (%s)", owner, s.unk))
+		return nil, false
+	}
+	s.discover = false
+	sort.Strings(s.terms)
+	s.index = map[string]int{}
+	for i, t := range s.terms {
+		s.index[t] = i
+	}
 	if len(s.terms) == 0 || len(s.terms) > 4 {
 		c.S.Note("%s", fmt.Sprintf("ORD-STRICT %s: %d compared terms, not modelled", owner, len(s.terms)))
-		return
+		return nil, false
 	}
 	// functional dependencies between terms: t depends on u when u's text occurs inside t's
 	dep := map[int][]int{}
@@ -445,6 +605,17 @@ func (e *ordEngine) strictOrder(owner string, fi *core.FuncInfo, body ast.Node, 
 		}
 		return strings.Join(parts, ", ")
 	}
+	// raw terms: the element itself or one of its string fields, compared unchanged
+	rawIdx := map[int]string{}
+	for i, t := range s.terms {
+		if m := rawTermRE.FindStringSubmatch(t); m != nil && s.strTerm[t] {
+			rawIdx[i] = m[2]
+		}
+	}
+	separates := map[int]bool{}
+	for i := range rawIdx {
+		separates[i] = true
+	}
 	evaluated := 0
 	for code := 0; code < total; code++ {
 		k := code
@@ -472,15 +643,23 @@ func (e *ordEngine) strictOrder(owner string, fi *core.FuncInfo, body ast.Node, 
 		var L [3][3]bool
 		for x := 0; x < 3; x++ {
 			for y := 0; y < 3; y++ {
-				v, ok := s.less(body, x, y)
+				v, ok := s.less(fi, body, x, y)
 				if !ok {
 					c.S.Note("%s", fmt.Sprintf("ORD-STRICT %s: not modelled (%s)", owner, s.unk))
-					return
+					return nil, false
 				}
 				L[x][y] = v
 			}
 		}
 		evaluated++
+		// a raw term that differs between a and b while they tie does not separate
+		if !L[0][1] && !L[1][0] {
+			for i := range rawIdx {
+				if s.ranks[i][0] != s.ranks[i][1] {
+					separates[i] = false
+				}
+			}
+		}
 		fail := ""
 		switch {
 		case L[0][0]:
@@ -495,9 +674,16 @@ func (e *ordEngine) strictOrder(owner string, fi *core.FuncInfo, body ast.Node, 
 		if fail != "" {
 			c.S.Violate("C07", "ORD-STRICT", owner, c.P.Pos(pos),
 				"the comparator is not a strict weak order ("+fail+"): the result of sort.Sort / sort.Slice then depends on the order in which the elements were delivered, i.e. on map iteration")
-			return
+			return nil, true
 		}
 	}
 	c.S.Hold("C07", "ORD-STRICT", owner, c.P.Pos(pos),
 		fmt.Sprintf("strict weak order on the terms %s: irreflexive, asymmetric, transitive, transitive incomparability on all %d feasible rank assignments of three elements", strings.Join(s.terms, ", "), evaluated))
+	fields := map[string]bool{}
+	for i, f := range rawIdx {
+		if separates[i] {
+			fields[f] = true
+		}
+	}
+	return fields, true
 }
